@@ -114,6 +114,9 @@ func c13GroupHistories(tier fw.Tier, seed int64, group int, pool []*c13Cfg, yiel
 	for variant := 0; variant < 2; variant++ {
 		for i := range pool {
 			for j := range pool {
+				if !c13SystematicPair(pool[i], pool[j]) {
+					continue
+				}
 				if k%sz.seqGroups == group {
 					if !emit(c13PairHistory(variant, i, j)) {
 						return
@@ -182,6 +185,7 @@ func c13RunSeq(w *fw.W, p *c13Params, pool []*c13Cfg) {
 	w.Max("configs", int64(len(pool)))
 	if p.Group == 0 && w.Flavour == "plain" {
 		c13RxStructural(w)
+		c13TwinEvidence(w, env, pool)
 	}
 	var chunk []uint64
 	chunkNo := 0
@@ -207,6 +211,31 @@ func c13RunSeq(w *fw.W, p *c13Params, pool []*c13Cfg) {
 		return true
 	})
 	flush()
+}
+
+// c13TwinEvidence reports (evidence only) which twin configurations - same key-looking text, one other
+// behaviour-deciding parameter different - the probe batteries tell apart when each is built alone.
+func c13TwinEvidence(w *fw.W, env *c13Env, pool []*c13Cfg) {
+	for _, a := range pool {
+		for _, b := range pool {
+			if a.Idx >= b.Idx || !c13Twins(a, b) {
+				continue
+			}
+			ra, rb := env.alone[a.Idx], env.alone[b.Idx]
+			if ra == nil || rb == nil || !ra.Built || !rb.Built {
+				w.Cover("twins_not_built", a.Name+" ~ "+b.Name)
+				continue
+			}
+			kind := c13ResourceKind(a.Role, b.Role)
+			if fw.Hash(ra.Hashes) != fw.Hash(rb.Hashes) {
+				w.Count("twin_pairs_discriminated", 1)
+				w.Cover("twin_kinds_discriminated", kind)
+			} else {
+				w.Count("twin_pairs_indistinct", 1)
+				w.Cover("twins_indistinct", a.Name+" ~ "+b.Name)
+			}
+		}
+	}
 }
 
 func c13ConfigsOf(h *c13History, cfgs map[int]*c13Cfg) map[int]*c13Cfg {
@@ -502,14 +531,14 @@ func c13Finish(d *fw.D) {
 func init() {
 	fw.Register(&fw.Prop{
 		ID: "C13", Level: "exploration",
-		Rule: "pool of small configurations that present the same text in different roles (@pm list, regex key, regex exclusion, ctl regex key, @restpath template, @validateNid expression, SecAuditLogRelevantStatus, data-set name with different contents, @pmFromFile/@ipMatchFromFile file name under different fs.FS roots, @rx with SecRxPreFilter On/Off, binary @rx); histories = every ordered pair of configurations in two systematic shapes plus seeded random sequences of build/probe/close over 3-4 slots (length <= 6 quick, <= 10 thorough), run sequentially in the plain and nomemo flavours and as concurrent rounds in the race flavour; every probe battery is compared with the same configuration built alone (in-process reference and fresh-process reference) and across flavours. A history is non-trivial when a construction found a cache entry it asks for already present (registered by another WAF); distinct by hash of the step list.",
+		Rule: "pool of small configurations that present the same text in different roles (@pm list, regex key, regex exclusion, ctl regex key, @restpath template, @validateNid expression, SecAuditLogRelevantStatus, data-set name with different contents, @pmFromFile/@ipMatchFromFile file name under different fs.FS roots, @rx with SecRxPreFilter On/Off, binary @rx) and, second round, families of TWIN configurations that agree on the text that looks like a cache key and differ in one other parameter that decides behaviour: @validateNid cl/us on one expression (two WAFs and two rules of one WAF), near-equal texts (non-ASCII letter case, ASCII letter case, one invalid byte) as @pm list / data-set content / phrase-file content / regex key / ctl key / @restpath / @rx, a @restpath template vs the literal reading of the same text, @validateSchema and @pmFromFile of one file name under different roots, @pmFromFile of one name resolved against different configuration directories of one root, @ipMatchFromDataset of one name with different contents; histories = every ordered pair of first-round configurations and every ordered pair inside a family for second-round ones, in two systematic shapes, plus seeded random sequences of build/probe/close over 3-4 slots (length <= 6 quick, <= 10 thorough), run sequentially in the plain and nomemo flavours and as concurrent rounds in the race flavour; every probe battery is compared with the same configuration built alone (in-process reference and fresh-process reference) and across flavours. A history is non-trivial when a construction found a cache entry it asks for already present (registered by another WAF); distinct by hash of the step list.",
 		Assumptions: []string{
 			"cache keys are a deterministic function of the configuration within one process (used only to decide non-triviality and to name the colliding role in the violation class, never for the verdict)",
 			"the snapshot invariants checked are those of the documented contract of WAF.Close: entries shared with other WAF instances remain until all owners release them, and nothing remains registered to a closed WAF",
 			"the structure:rx-operator monitor reads unexported fields of the @rx operator by reflection; if the layout changes it is skipped and counted (rx_structure_unavailable_or_indistinct), it never decides alone that the property holds",
 			"WAFs are private to one goroutine in the concurrent variant; concurrent transactions on one WAF belong to C06",
 		},
-		Required: []string{"histories", "probes_compared", "snapshot_checks", "histories_with_shared_entry", "alone_cross_flavour_compared", "histories_cross_flavour_compared", "discriminating_pairs", "concurrent_rounds"},
+		Required: []string{"histories", "probes_compared", "snapshot_checks", "histories_with_shared_entry", "alone_cross_flavour_compared", "histories_cross_flavour_compared", "discriminating_pairs", "twin_pairs_discriminated", "concurrent_rounds"},
 		Plan: func(tier fw.Tier, seed int64) []fw.Batch {
 			sz := c13SizesFor(tier)
 			pool := c13Pool()
